@@ -131,7 +131,7 @@ func runPipeT[V any](p pipeProg, rng *Rng, choices []int, conv func(int) V, back
 		go func() { grp.Wait(); close(done) }()
 		select {
 		case <-done:
-		case <-time.After(500 * time.Millisecond):
+		case <-time.After(3 * time.Second):
 			res.status = "group-not-released"
 		}
 	}
